@@ -778,6 +778,17 @@ static void resume_event(void *vp, void *arg)
 }
 
 /*
+ * cmi_process_withdraw_resume - cancel any pending resume event for the process,
+ * see cmb_process_yield()
+ */
+void cmi_process_withdraw_resume(struct cmb_process *pp)
+{
+    cmb_assert_debug(pp != NULL);
+
+    (void)cmb_event_pattern_cancel(resume_event, pp, CMB_ANY_OBJECT);
+}
+
+/*
  * cmb_process_resume - schedule a wakeup event at the current time
  */
 void cmb_process_resume(struct cmb_process *pp, int64_t sig)
